@@ -545,19 +545,46 @@ def stepDataset (cfg : Cfg) (a : Acc) : Chunks.Dataset → Res Acc
         if cfg.readTypes % 2 == 1 then do
           let (o, st) ← decodeNode cfg a.st payload
           pure { a with st := st, objs := o :: a.objs }
-        else pure a
+        else if cfg.readTypes % 8 == 0 then
+          -- read_types() == nothing: mark_header_as_done() above has handed the header to the Reader,
+          -- which never pops the data queue (Reader::read() returns at once, close() drains it): what
+          -- decoding this dataset does or throws is not observable; the loop ends with the `break` below
+          pure a
+        else do
+          -- repair f1844ef: a skipped dataset is still decoded (the delta counters and the reference
+          -- table are shared by all object types; its errors are thrown) and then rolled back
+          let (_, st) ← decodeNode cfg a.st payload
+          pure { a with st := st }
       else if t == 0x11 then
         let a := { a with headerDone := true }
         if cfg.readTypes / 2 % 2 == 1 then do
           let (o, st) ← decodeWay cfg a.st payload
           pure { a with st := st, objs := o :: a.objs }
-        else pure a
+        else if cfg.readTypes % 8 == 0 then
+          -- read_types() == nothing: mark_header_as_done() above has handed the header to the Reader,
+          -- which never pops the data queue (Reader::read() returns at once, close() drains it): what
+          -- decoding this dataset does or throws is not observable; the loop ends with the `break` below
+          pure a
+        else do
+          -- repair f1844ef: a skipped dataset is still decoded (the delta counters and the reference
+          -- table are shared by all object types; its errors are thrown) and then rolled back
+          let (_, st) ← decodeWay cfg a.st payload
+          pure { a with st := st }
       else if t == 0x12 then
         let a := { a with headerDone := true }
         if cfg.readTypes / 4 % 2 == 1 then do
           let (o, st) ← decodeRelation cfg a.st payload
           pure { a with st := st, objs := o :: a.objs }
-        else pure a
+        else if cfg.readTypes % 8 == 0 then
+          -- read_types() == nothing: mark_header_as_done() above has handed the header to the Reader,
+          -- which never pops the data queue (Reader::read() returns at once, close() drains it): what
+          -- decoding this dataset does or throws is not observable; the loop ends with the `break` below
+          pure a
+        else do
+          -- repair f1844ef: a skipped dataset is still decoded (the delta counters and the reference
+          -- table are shared by all object types; its errors are thrown) and then rolled back
+          let (_, st) ← decodeRelation cfg a.st payload
+          pure { a with st := st }
       -- m_header is handed to the reader by the first mark_header_as_done(); later changes are not seen
       else if t == 0xdb then do
         let b ← decodeBbox payload
